@@ -78,6 +78,56 @@ def _step_sum(seed, n_cases):
                                   "after": after, "dt": dt}, samples
         if len(samples) < 1:
             samples.append({"oracle": "step_sum_2d", "grid": [ny, nx], "drift": after - before})
+    # ---- 3D Navier-Stokes (each vorticity component; filter off / both types) and passive transport (2D, 3D scalar, 3D vector)
+    import warnings
+
+    filts = [None, (1, "multiplicative"), (2, "convolution")]
+    for t in range(max(1, n_cases // 2)):
+        for fi_, filt in enumerate(filts):
+            r = impl.rng(seed, "c04sum3d", t, fi_)
+            shape = tuple(int(v) for v in r.integers(18, 23, size=3))
+            kw = {} if filt is None else dict(filter_vorticity=True, filter_setting_dict={"order": filt[0], "type": filt[1]})
+            with warnings.catch_warnings():
+                warnings.simplefilter("ignore")
+                sim = sps.UnboundedNavierStokesFlowSimulator3D(grid_size=shape, x_range=1.0, kinematic_viscosity=float(r.uniform(1e-3, 1e-2)),
+                                                               real_t=np.float64, with_forcing=True, with_free_stream_flow=True,
+                                                               flow_density=float(r.uniform(0.5, 2.0)), penalty_zone_width=1, **kw)
+            m = 7
+            I = (slice(None),) + (slice(m, -m),) * 3
+            sim.vorticity_field[I] = r.normal(size=sim.vorticity_field[I].shape)
+            sim.eul_grid_forcing_field[I] = r.normal(size=sim.eul_grid_forcing_field[I].shape)
+            sim.velocity_field[...] = r.normal(size=sim.velocity_field.shape)
+            sim.buffer_vector_field[...] = r.normal(size=sim.buffer_vector_field.shape)
+            before = sim.vorticity_field.reshape(3, -1).sum(axis=1)
+            dt = float(r.uniform(1e-4, 1e-3))
+            with warnings.catch_warnings():
+                warnings.simplefilter("ignore")
+                sim.time_step(dt=dt, free_stream_velocity=r.normal(size=3))
+            after = sim.vorticity_field.reshape(3, -1).sum(axis=1)
+            cases += 1
+            scale = max(1.0, float(np.sum(np.abs(sim.vorticity_field))))
+            if np.abs(after - before).max() > 1e-10 * scale:
+                return False, cases, {"oracle": "step_sum_3d", "grid": list(shape), "filter": str(filt), "before": before.tolist(),
+                                      "after": after.tolist(), "dt": dt}, samples
+    for dim, ft in ((2, "scalar"), (3, "scalar"), (3, "vector")):
+        r = impl.rng(seed, "c04passive", dim, ft)
+        shape = tuple(int(v) for v in r.integers(18, 24, size=dim))
+        sim = sps.PassiveTransportFlowSimulator(kinematic_viscosity=float(r.uniform(1e-3, 1e-2)), grid_dim=dim, grid_size=shape, x_range=1.0,
+                                                real_t=np.float64, field_type=ft)
+        m = 6
+        lead = (slice(None),) if ft == "vector" else ()
+        I = lead + (slice(m, -m),) * dim
+        sim.primary_field[I] = r.normal(size=sim.primary_field[I].shape)
+        sim.velocity_field[...] = r.normal(size=sim.velocity_field.shape)
+        sim.buffer_scalar_field[...] = r.normal(size=sim.buffer_scalar_field.shape)
+        before = sim.primary_field.reshape(-1 if ft == "scalar" else dim, int(np.prod(shape))).sum(axis=-1)
+        sim.time_step(dt=float(r.uniform(1e-4, 1e-3)))
+        after = sim.primary_field.reshape(-1 if ft == "scalar" else dim, int(np.prod(shape))).sum(axis=-1)
+        cases += 1
+        scale = max(1.0, float(np.sum(np.abs(sim.primary_field))))
+        if np.abs(np.asarray(after) - np.asarray(before)).max() > 1e-10 * scale:
+            return False, cases, {"oracle": "step_sum_passive", "dim": dim, "field_type": ft, "grid": list(shape),
+                                  "before": np.asarray(before).tolist(), "after": np.asarray(after).tolist()}, samples
     return True, cases, None, samples
 
 
